@@ -47,6 +47,9 @@ pub enum Op {
     AddFilter(usize),
     Optimize,
     ProbeAll,
+    /// the next state-changing operation runs on a helper thread (the engine is `Send`); queries
+    /// continue on the run thread afterwards
+    OnOtherThread,
 }
 
 impl Op {
@@ -73,12 +76,13 @@ impl Op {
             Op::AddFilter(_) => "add_filter",
             Op::Optimize => "optimize",
             Op::ProbeAll => "probe_all",
+            Op::OnOtherThread => "on_other_thread",
         }
     }
     pub fn mutating(&self) -> bool {
         !matches!(
             self,
-            Op::Check(_) | Op::CheckSubset(..) | Op::Csp(_) | Op::Cosmetic(_) | Op::ClassId(..) | Op::TagExists(_) | Op::DebugInfo | Op::ProbeAll
+            Op::Check(_) | Op::CheckSubset(..) | Op::Csp(_) | Op::Cosmetic(_) | Op::ClassId(..) | Op::TagExists(_) | Op::DebugInfo | Op::ProbeAll | Op::OnOtherThread
         )
     }
 }
@@ -219,6 +223,9 @@ pub fn gen_ops(seed: u64, w: &World, mix: &OpMix) -> Vec<Op> {
                 _ => Op::ProbeAll,
             },
         };
+        if op.mutating() && !matches!(op, Op::Advance(_) | Op::SetPolicy(..)) && r.chance(12) {
+            ops.push(Op::OnOtherThread);
+        }
         ops.push(op);
     }
     ops
@@ -634,6 +641,8 @@ pub struct RunStats {
     pub alloc_recycled: u64,
     pub alloc_digest: u64,
     pub fused_match: u64,
+    #[serde(default)]
+    pub ops_on_helper_thread: u64,
     pub states: Vec<u64>,
     pub op_kinds: u64,
 }
@@ -698,11 +707,52 @@ struct Oracles {
     list: Option<Sut>,
 }
 
+/// Everything one oracle engine answers for the run's probe set. Computed on a *fresh thread* each
+/// time the model changes and then dropped with its engine there: thread-local state of the code
+/// under test (memo tables, scratch buffers) cannot leak between the system under test and its oracle.
+struct OracleAnswers {
+    name: &'static str,
+    net: Vec<Option<NetAns>>,
+    /// index = (matched_rule as usize) * 2 + (force as usize)
+    subset: Vec<[Option<NetAns>; 4]>,
+    csp: Vec<Option<Option<Vec<String>>>>,
+    cos: Vec<Option<CosAns>>,
+    cid: Vec<Vec<Option<Vec<String>>>>,
+}
+
+struct OracleSet {
+    version: u64,
+    sets: Vec<OracleAnswers>,
+}
+
 pub struct Exec<'a> {
     pub w: &'a World,
     pub check: Check,
     pub blocker: bool,
     pub reqs: Reqs,
+}
+
+/// Runs a state-changing call either here or on a helper thread (with the rule size class routed to
+/// the simulated region and the simulated clock carried over).
+fn maybe_other_thread<R: Send>(other: bool, f: impl FnOnce() -> R + Send) -> R {
+    if !other {
+        return seams::track(f);
+    }
+    let now = vh::clock_now_ns();
+    std::thread::scope(|sc| {
+        let h = std::thread::Builder::new()
+            .stack_size(32 << 20)
+            .spawn_scoped(sc, move || {
+                set_quiet(true);
+                vh::clock_set_ns(now);
+                seams::track(f)
+            })
+            .expect("spawn helper thread");
+        match h.join() {
+            Ok(r) => r,
+            Err(e) => std::panic::resume_unwind(e),
+        }
+    })
 }
 
 fn tagvec(s: &BTreeSet<String>) -> Vec<&str> {
@@ -722,6 +772,62 @@ fn load_bytes(slot: &Slot, optimize_knob: bool, tags: &BTreeSet<String>, resourc
 impl<'a> Exec<'a> {
     pub fn new(w: &'a World, check: Check, blocker: bool) -> Self {
         Exec { w, check, blocker, reqs: Reqs::new(w) }
+    }
+
+    fn oracle_answers(&self, m: &Model) -> OracleSet {
+        let w = self.w;
+        let version = m.version;
+        let sets = std::thread::scope(|scope| {
+            let h = std::thread::Builder::new()
+                .stack_size(32 << 20)
+                .spawn_scoped(scope, || {
+                    set_quiet(true);
+                    let r = catch_unwind(AssertUnwindSafe(|| {
+                        let o = self.build_oracles(m);
+                        let list: Vec<(&'static str, Option<Sut>)> =
+                            vec![("fresh-engine", o.fresh), ("never-optimised", o.noopt), ("tag-free-reference", o.tagfree), ("engine-from-list", o.list)];
+                        let mut out = vec![];
+                        for (name, s) in list {
+                            let s = match s {
+                                Some(s) => s,
+                                None => continue,
+                            };
+                            let mut a = OracleAnswers { name, net: vec![], subset: vec![], csp: vec![], cos: vec![], cid: vec![] };
+                            for rq in self.reqs.reqs.iter() {
+                                match rq {
+                                    Some(rq) => {
+                                        a.net.push(Some(s.check(rq)));
+                                        a.subset.push([
+                                            Some(s.check_subset(rq, false, false)),
+                                            Some(s.check_subset(rq, false, true)),
+                                            Some(s.check_subset(rq, true, false)),
+                                            Some(s.check_subset(rq, true, true)),
+                                        ]);
+                                        a.csp.push(Some(s.csp(rq)));
+                                    }
+                                    None => {
+                                        a.net.push(None);
+                                        a.subset.push([None, None, None, None]);
+                                        a.csp.push(None);
+                                    }
+                                }
+                            }
+                            for p in &w.pages {
+                                a.cos.push(s.cosmetic(p));
+                            }
+                            for c in &w.classids {
+                                a.cid.push(w.pages.iter().map(|p| s.classid(c, p)).collect());
+                            }
+                            out.push(a);
+                        }
+                        out
+                    }));
+                    r.unwrap_or_default()
+                })
+                .expect("spawn oracle thread");
+            h.join().unwrap_or_default()
+        });
+        OracleSet { version, sets }
     }
 
     fn build_oracles(&self, m: &Model) -> Oracles {
@@ -838,9 +944,10 @@ impl<'a> Exec<'a> {
                 }
             }
         }
-        let mut oracles = Oracles { version: 0, fresh: None, noopt: None, tagfree: None, list: None };
+        let mut oracles = OracleSet { version: 0, sets: vec![] };
         let mut state_set: BTreeSet<u64> = BTreeSet::new();
         let mut last_query: Option<Op> = None;
+        let mut other_thread_next = false;
 
         macro_rules! fail {
             ($oracle:expr, $step:expr, $op:expr, $what:expr, $got:expr, $want:expr) => {{
@@ -870,19 +977,30 @@ impl<'a> Exec<'a> {
             if op.mutating() {
                 stats.mutating_ops += 1;
             }
+            if matches!(op, Op::OnOtherThread) {
+                other_thread_next = true;
+                continue;
+            }
+            let on_helper = other_thread_next && op.mutating();
+            if op.mutating() {
+                other_thread_next = false;
+            }
+            if on_helper {
+                stats.ops_on_helper_thread += 1;
+            }
             // ---- apply to the system under test (and to the model)
             let applied = catch_unwind(AssertUnwindSafe(|| -> Result<(), (String, String, String, String)> {
                 match op {
                     Op::UseTags(t) => {
                         let tv: Vec<&str> = t.iter().map(|s| s.as_str()).collect();
-                        seams::track(|| sut.use_tags(&tv));
+                        maybe_other_thread(on_helper, || sut.use_tags(&tv));
                         model.tags = t.iter().cloned().collect();
                         model.version += 1;
                         stats.tag_switches += 1;
                     }
                     Op::EnableTags(t) => {
                         let tv: Vec<&str> = t.iter().map(|s| s.as_str()).collect();
-                        seams::track(|| sut.enable_tags(&tv));
+                        maybe_other_thread(on_helper, || sut.enable_tags(&tv));
                         for x in t {
                             model.tags.insert(x.clone());
                         }
@@ -891,7 +1009,7 @@ impl<'a> Exec<'a> {
                     }
                     Op::DisableTags(t) => {
                         let tv: Vec<&str> = t.iter().map(|s| s.as_str()).collect();
-                        seams::track(|| sut.disable_tags(&tv));
+                        maybe_other_thread(on_helper, || sut.disable_tags(&tv));
                         for x in t {
                             model.tags.remove(x);
                         }
@@ -947,7 +1065,7 @@ impl<'a> Exec<'a> {
                     }
                     Op::Deserialize(slot) => {
                         if let (Sut::Engine(e), Some(s)) = (&mut sut, slots[*slot].clone()) {
-                            let r = seams::track(|| e.deserialize(&s.bytes));
+                            let r = maybe_other_thread(on_helper, || e.deserialize(&s.bytes));
                             match r {
                                 Ok(()) => {
                                     stats.reloads += 1;
@@ -983,7 +1101,7 @@ impl<'a> Exec<'a> {
                             let tags = model.tags.clone();
                             let res = model.resources.clone();
                             let knob = w.knobs.optimize;
-                            let ne = seams::track(|| {
+                            let ne = maybe_other_thread(on_helper, || {
                                 let mut ne = Engine::new(knob);
                                 let r = ne.deserialize(&s.bytes);
                                 ne.use_tags(&tagvec(&tags));
@@ -1006,7 +1124,7 @@ impl<'a> Exec<'a> {
                     }
                     Op::UseResources(idx) => {
                         let rs: Vec<ResSpec> = idx.iter().map(|i| w.resources[*i].clone()).collect();
-                        sut.set_resources(&rs);
+                        maybe_other_thread(on_helper, || sut.set_resources(&rs));
                         // the model keeps what a store must have accepted: a resource is taken as a whole
                         // unless one of its identifiers is already in use
                         model.resources = accept_resources(&rs);
@@ -1014,7 +1132,7 @@ impl<'a> Exec<'a> {
                     }
                     Op::AddResource(i) => {
                         let rs = &w.resources[*i];
-                        let ok = sut.add_resource(rs);
+                        let ok = maybe_other_thread(on_helper, || sut.add_resource(rs));
                         let dup = resource_collides(&model.resources, rs);
                         if ok {
                             model.resources.push(rs.clone());
@@ -1028,7 +1146,7 @@ impl<'a> Exec<'a> {
                         if let Sut::Blocker(b, _) = &mut sut {
                             let rule = &w.extra[*i];
                             if let Ok(f) = NetworkFilter::parse(&rule.text(), w.knobs.debug, Default::default()) {
-                                let r = seams::track(|| b.add_filter(f));
+                                let r = maybe_other_thread(on_helper, || b.add_filter(f));
                                 dg.u64(r.is_ok() as u64);
                                 if r.is_ok() {
                                     stats.add_filter_ok += 1;
@@ -1042,7 +1160,7 @@ impl<'a> Exec<'a> {
                     }
                     Op::Optimize => {
                         if let Sut::Blocker(b, _) = &mut sut {
-                            seams::track(|| b.optimize());
+                            maybe_other_thread(on_helper, || b.optimize());
                             stats.optimize_calls += 1;
                             if self.check != Check::C05 {
                                 // C06 compares against a fresh engine of the same configuration; whether
@@ -1070,12 +1188,7 @@ impl<'a> Exec<'a> {
 
             // ---- oracles for the current model state
             if oracles.version != model.version {
-                let before = vh::probes();
-                oracles = self.build_oracles(&model);
-                let after = vh::probes();
-                for i in 0..8 {
-                    oracle_probe_noise[i] += after[i] - before[i];
-                }
+                oracles = self.oracle_answers(&model);
             }
 
             // ---- which probes to evaluate
@@ -1134,9 +1247,6 @@ impl<'a> Exec<'a> {
                 }
             }
 
-            let oracle_list: Vec<(&'static str, &Option<Sut>)> =
-                vec![("fresh-engine", &oracles.fresh), ("never-optimised", &oracles.noopt), ("tag-free-reference", &oracles.tagfree), ("engine-from-list", &oracles.list)];
-
             for q in qs {
                 let res = catch_unwind(AssertUnwindSafe(|| -> Option<(String, String, String, String)> {
                     match q {
@@ -1151,19 +1261,14 @@ impl<'a> Exec<'a> {
                             if !got.is_default() {
                                 stats.nondefault_answers += 1;
                             }
-                            for (name, o) in oracle_list.iter() {
-                                if let Some(o) = o {
-                                    let before = vh::probes();
-                                    let want = match q {
-                                        Q::Subset(_, m, f) => o.check_subset(rq, m, f),
-                                        _ => o.check(rq),
-                                    };
-                                    let after = vh::probes();
-                                    for k in 0..8 {
-                                        oracle_probe_noise[k] += after[k] - before[k];
-                                    }
-                                    if got != want {
-                                        return Some((name.to_string(), label, got.show(), want.show()));
+                            for o in oracles.sets.iter() {
+                                let want = match q {
+                                    Q::Subset(_, m, f) => o.subset[i][(m as usize) * 2 + (f as usize)].as_ref(),
+                                    _ => o.net[i].as_ref(),
+                                };
+                                if let Some(want) = want {
+                                    if &got != want {
+                                        return Some((o.name.to_string(), label, got.show(), want.show()));
                                     }
                                 }
                             }
@@ -1176,16 +1281,10 @@ impl<'a> Exec<'a> {
                             if got.is_some() {
                                 stats.nondefault_answers += 1;
                             }
-                            for (name, o) in oracle_list.iter() {
-                                if let Some(o) = o {
-                                    let before = vh::probes();
-                                    let want = o.csp(rq);
-                                    let after = vh::probes();
-                                    for k in 0..8 {
-                                        oracle_probe_noise[k] += after[k] - before[k];
-                                    }
-                                    if got != want {
-                                        return Some((name.to_string(), format!("csp probe#{} {:?}", i, w.probes[i]), format!("{:?}", got), format!("{:?}", want)));
+                            for o in oracles.sets.iter() {
+                                if let Some(want) = o.csp[i].as_ref() {
+                                    if &got != want {
+                                        return Some((o.name.to_string(), format!("csp probe#{} {:?}", i, w.probes[i]), format!("{:?}", got), format!("{:?}", want)));
                                     }
                                 }
                             }
@@ -1197,12 +1296,10 @@ impl<'a> Exec<'a> {
                             if !got.hide.is_empty() || !got.script.is_empty() || !got.procedural.is_empty() {
                                 stats.nondefault_answers += 1;
                             }
-                            for (name, o) in oracle_list.iter() {
-                                if let Some(o) = o {
-                                    if let Some(want) = o.cosmetic(&w.pages[p]) {
-                                        if got != want {
-                                            return Some((name.to_string(), format!("cosmetic page#{} {}", p, w.pages[p]), format!("{:?}", got), format!("{:?}", want)));
-                                        }
+                            for o in oracles.sets.iter() {
+                                if let Some(want) = o.cos[p].as_ref() {
+                                    if &got != want {
+                                        return Some((o.name.to_string(), format!("cosmetic page#{} {}", p, w.pages[p]), format!("{:?}", got), format!("{:?}", want)));
                                     }
                                 }
                             }
@@ -1214,12 +1311,10 @@ impl<'a> Exec<'a> {
                             if !got.is_empty() {
                                 stats.nondefault_answers += 1;
                             }
-                            for (name, o) in oracle_list.iter() {
-                                if let Some(o) = o {
-                                    if let Some(want) = o.classid(&w.classids[c], &w.pages[p]) {
-                                        if got != want {
-                                            return Some((name.to_string(), format!("classid set#{} page#{}", c, p), format!("{:?}", got), format!("{:?}", want)));
-                                        }
+                            for o in oracles.sets.iter() {
+                                if let Some(want) = o.cid[c][p].as_ref() {
+                                    if &got != want {
+                                        return Some((o.name.to_string(), format!("classid set#{} page#{}", c, p), format!("{:?}", got), format!("{:?}", want)));
                                     }
                                 }
                             }
